@@ -21,6 +21,9 @@ func AmfIdToNasWithError(amfId string) (amfRegionId uint8, amfSetId uint16, amfP
 	if err != nil {
 		return 0, 0, 0, fmt.Errorf("amfId decode failed: %w", err)
 	}
+	if len(amfIdBytes) != 3 {
+		return 0, 0, 0, fmt.Errorf("amfId must be 6 hex digits, got %d", len(amfId))
+	}
 
 	amfRegionId = amfIdBytes[0]
 	amfSetId = uint16(amfIdBytes[1])<<2 + (uint16(amfIdBytes[2])&0x00c0)>>6
